@@ -49,9 +49,9 @@ CONTRACTS = {
     "ge_polyhedron.reducable_rows_and_columns": {"props": ["C11"], "why": "fixpoint loop; merges write only into still-undecided positions"},
     "ge_polyhedron.reduce": {"props": ["C11"], "why": "rows then columns on a copy"},
     # ---- point classification (C19) -----------------------------------------------------------------------
-    "ge_polyhedron.separable": {"props": ["C19"], "why": "per point: exists row with A x < b"},
-    "ge_polyhedron.ineq_separate_points": {"props": ["C19"], "why": "per row: exists point with A x < b"},
-    "ge_polyhedron.ineqs_satisfied": {"props": ["C19"], "why": "per point: all rows A x >= b"},
+    "ge_polyhedron.separable": {"types": {"points": ["numpy.ndarray"]}, "domain": ["points.ndim != 0"], "props": ["C19"], "why": "per point: exists row with A x < b"},
+    "ge_polyhedron.ineq_separate_points": {"types": {"points": ["numpy.ndarray"]}, "domain": ["points.ndim != 0"], "props": ["C19"], "why": "per row: exists point with A x < b"},
+    "ge_polyhedron.ineqs_satisfied": {"types": {"points": ["numpy.ndarray"]}, "domain": ["points.ndim != 0"], "props": ["C19"], "why": "per point: all rows A x >= b"},
     # ---- priority compression (C13) -------------------------------------------------------------------------
     "integer_ndarray.reduce2d": {"props": ["C13", "C14"], "why": "keeps the first / last non-zero per column, zeros elsewhere"},
     "integer_ndarray.ranking": {"props": ["C13"], "why": "dense ranking loop"},
